@@ -24,6 +24,24 @@ type c23T struct {
 	s    string
 	n    int64
 	args []*c23T
+	fn   *ssa.Function // op "closure": the function that runs when the value is called
+}
+
+// nonNil: the term denotes a value that is certainly not nil (an allocated object, a slice of
+// one, a function value, a freshly constructed error).
+func (t *c23T) nonNil() bool {
+	if t == nil {
+		return false
+	}
+	switch t.op {
+	case "obj", "closure", "func":
+		return true
+	case "sl":
+		return t.args[0].nonNil()
+	case "call":
+		return t.s == "errors.New" || t.s == "fmt.Errorf"
+	}
+	return false
 }
 
 func c23Const(s string) *c23T             { return &c23T{op: "const", s: s} }
@@ -54,6 +72,21 @@ type c23Obj struct {
 	zero   bool
 	typ    types.Type
 	pooled *c23T // non-nil: obtained from this pool (sync.Pool.Get), contents unknown
+	// a byte string assembled by append from an empty slice: its content as ordered segments
+	hasSegs bool
+	segs    []c23Seg
+	root    int // object whose memory this one may share (append result -> appended-to object)
+	// kind "map": a locally built lookup table with constant keys
+	mapKeys []*c23T
+	mapVals []*c23T
+	mapOpen bool // an entry with a non-constant key was added: the table is not enumerable
+}
+
+// c23Seg is one piece of an appended byte string: a single byte, a byte slice, or a 16-bit
+// integer in big/little-endian order.
+type c23Seg struct {
+	kind string // "byte", "bytes", "u16be", "u16le"
+	t    *c23T
 }
 
 func (o *c23Obj) clone() *c23Obj {
@@ -66,6 +99,9 @@ func (o *c23Obj) clone() *c23Obj {
 	for k, v := range o.fields {
 		c.fields[k] = v
 	}
+	c.segs = append([]c23Seg{}, o.segs...)
+	c.mapKeys = append([]*c23T{}, o.mapKeys...)
+	c.mapVals = append([]*c23T{}, o.mapVals...)
 	return &c
 }
 
@@ -144,11 +180,13 @@ type c23Path struct {
 }
 
 type c23Exec struct {
-	p        *kit.Program
-	inline   func(callee *ssa.Function, depth int) bool
-	maxPaths int
-	paths    []*c23Path
-	overflow bool
+	p      *kit.Program
+	inline func(callee *ssa.Function, depth int) bool
+	// fieldTable resolves a struct field (name, index) that holds a constant-key table of methods
+	fieldTable func(name string, idx int) (keys []int64, fns []*ssa.Function, ok bool)
+	maxPaths   int
+	paths      []*c23Path
+	overflow   bool
 }
 
 // ---------------------------------------------------------------------------------------------
@@ -248,6 +286,8 @@ func (st *c23State) show(t *c23T) string {
 		return st.show(t.args[0]) + ".(" + t.s + ")"
 	case "zero":
 		return "zero"
+	case "closure":
+		return "func:" + t.s
 	}
 	return "?" + t.s
 }
@@ -284,6 +324,12 @@ func c23BinFold(op token.Token, a, b *c23T) *c23T {
 	if a.isConst() && b.isConst() && (op == token.EQL || op == token.NEQ) && !ok1 && !ok2 {
 		return c23Const(strconv.FormatBool((a.s == b.s) == (op == token.EQL)))
 	}
+	if op == token.EQL || op == token.NEQ {
+		// x == nil / x != nil for a value known not to be nil
+		if (a.isNil() && b.nonNil()) || (b.isNil() && a.nonNil()) {
+			return c23Const(strconv.FormatBool(op == token.NEQ))
+		}
+	}
 	if op == token.ADD {
 		if ok1 && x == 0 {
 			return b
@@ -304,7 +350,7 @@ func c23BinFold(op token.Token, a, b *c23T) *c23T {
 func (st *c23State) newObj(kind string, lenT *c23T, typ types.Type) *c23T {
 	id := st.nextObj
 	st.nextObj++
-	st.objs[id] = &c23Obj{id: id, kind: kind, lenT: lenT, readNo: -1, elems: map[int64]*c23T{}, fields: map[int]*c23T{}, zero: true, typ: typ}
+	st.objs[id] = &c23Obj{id: id, kind: kind, lenT: lenT, readNo: -1, elems: map[int64]*c23T{}, fields: map[int]*c23T{}, zero: true, typ: typ, root: id}
 	return &c23T{op: "obj", n: int64(id)}
 }
 
@@ -655,6 +701,64 @@ func (x *c23Exec) exec(st *c23State) {
 			st.panicked = true
 			x.finish(st, nil)
 			return
+		case *ssa.Lookup:
+			// a lookup in a locally built constant-key table is a finite case distinction on the
+			// key: one path per entry (key == k) and one for "no entry"
+			mt := x.term(st, fr, in.X)
+			var tbl *c23Obj
+			if mt.isObj() {
+				tbl = st.objs[int(mt.n)]
+			} else if mt.op == "load" && mt.args[0].op == "fld" && x.fieldTable != nil {
+				// a table kept in a struct field, filled once by a constructor with constant keys
+				if keys, fns, ok := x.fieldTable(mt.args[0].s, int(mt.args[0].n)); ok {
+					tbl = &c23Obj{kind: "map"}
+					for i, k := range keys {
+						tbl.mapKeys = append(tbl.mapKeys, c23Int(k))
+						tbl.mapVals = append(tbl.mapVals, &c23T{op: "closure", s: kit.FuncName(fns[i]), fn: fns[i], args: []*c23T{mt.args[0].args[0]}})
+					}
+				}
+			}
+			if tbl == nil || tbl.kind != "map" || tbl.mapOpen || len(tbl.mapKeys) == 0 || len(tbl.mapKeys) > 16 {
+				fr.pc++
+				continue
+			}
+			key := x.term(st, fr, in.Index)
+			bind := func(s2 *c23State, val *c23T, found bool) {
+				f2 := s2.top()
+				if in.CommaOk {
+					f2.vals[in] = &c23T{op: "tuple", args: []*c23T{val, c23Const(strconv.FormatBool(found))}}
+				} else {
+					f2.vals[in] = val
+				}
+				f2.pc++
+			}
+			if _, isConstKey := key.intVal(); isConstKey || key.isConst() {
+				hit := -1
+				for i, k := range tbl.mapKeys {
+					if k.s == key.s {
+						hit = i
+					}
+				}
+				if hit >= 0 {
+					bind(st, tbl.mapVals[hit], true)
+				} else {
+					bind(st, c23Const("nil"), false)
+				}
+				continue
+			}
+			for i, k := range tbl.mapKeys {
+				s2 := st.clone()
+				for j := 0; j < i; j++ {
+					s2.conds = append(s2.conds, c23Cond{t: &c23T{op: "bin", s: "==", args: []*c23T{key, tbl.mapKeys[j]}}, taken: false})
+				}
+				s2.conds = append(s2.conds, c23Cond{t: &c23T{op: "bin", s: "==", args: []*c23T{key, k}}, taken: true})
+				bind(s2, tbl.mapVals[i], true)
+				x.exec(s2)
+			}
+			for _, k := range tbl.mapKeys {
+				st.conds = append(st.conds, c23Cond{t: &c23T{op: "bin", s: "==", args: []*c23T{key, k}}, taken: false})
+			}
+			bind(st, c23Const("nil"), false)
 		default:
 			if x.step(st, fr, in) {
 				fr.pc++
@@ -680,6 +784,20 @@ func (x *c23Exec) step(st *c23State, fr *c23Frame, in ssa.Instruction) bool {
 	case *ssa.MakeSlice:
 		o := st.newObj("bytes", x.term(st, fr, i.Len), i.Type())
 		fr.vals[i] = &c23T{op: "sl", args: []*c23T{o, c23Int(0), nil}}
+	case *ssa.MakeMap:
+		fr.vals[i] = st.newObj("map", nil, i.Type())
+	case *ssa.MapUpdate:
+		if mt := x.term(st, fr, i.Map); mt.isObj() {
+			if o := st.objs[int(mt.n)]; o != nil && o.kind == "map" {
+				k := x.term(st, fr, i.Key)
+				if k.isConst() {
+					o.mapKeys = append(o.mapKeys, k)
+					o.mapVals = append(o.mapVals, x.term(st, fr, i.Value))
+				} else {
+					o.mapOpen = true
+				}
+			}
+		}
 	case *ssa.Store:
 		st.store(x.term(st, fr, i.Addr), x.term(st, fr, i.Val), in, depth)
 	case *ssa.UnOp:
@@ -688,6 +806,22 @@ func (x *c23Exec) step(st *c23State, fr *c23Frame, in ssa.Instruction) bool {
 		}
 	case *ssa.Call:
 		return x.call(st, fr, i)
+	case *ssa.MakeClosure:
+		if f, ok := i.Fn.(*ssa.Function); ok {
+			var bs []*c23T
+			for _, b := range i.Bindings {
+				bs = append(bs, x.term(st, fr, b))
+			}
+			target, isBound := c23BoundTarget(f)
+			if !isBound {
+				target = f
+			}
+			t := &c23T{op: "closure", s: kit.FuncName(target), fn: target}
+			if isBound {
+				t.args = bs // the receiver: first argument of the method
+			}
+			fr.vals[i] = t
+		}
 	case *ssa.Go:
 		cal := kit.CalleeOf(i)
 		st.events = append(st.events, c23Event{kind: "go", in: in, callee: cal.String(), static: cal.Static, args: x.callArgs(st, fr, i), depth: depth})
@@ -745,8 +879,13 @@ func (st *c23State) refsObj(t *c23T, id int) bool {
 	if t == nil {
 		return false
 	}
-	if t.op == "obj" && int(t.n) == id {
-		return true
+	if t.op == "obj" {
+		if int(t.n) == id {
+			return true
+		}
+		if a, b := st.objs[int(t.n)], st.objs[id]; a != nil && b != nil && a.root == b.root {
+			return true
+		}
 	}
 	for _, a := range t.args {
 		if st.refsObj(a, id) {
@@ -815,8 +954,36 @@ func (x *c23Exec) call(st *c23State, fr *c23Frame, c *ssa.Call) bool {
 		fr.vals[c] = res
 		return true
 	case "append":
+		if len(args) == 2 {
+			if r := st.appendSegs(args[0], st.segsOf(args[1]), st.lenTerm(args[1])); r != nil {
+				fr.vals[c] = r
+				return true
+			}
+		}
 		fr.vals[c] = &c23T{op: "call", s: "append", args: args}
 		return true
+	}
+	if cal.Pkg == "encoding/binary" && cal.Name == "AppendUint16" && len(args) == 3 {
+		kind := "u16be"
+		if cal.Recv == "littleEndian" {
+			kind = "u16le"
+		}
+		if r := st.appendSegs(args[1], []c23Seg{{kind: kind, t: args[2]}}, c23Int(2)); r != nil {
+			st.events = append(st.events, c23Event{kind: "call", in: c, callee: cal.String(), static: cal.Static, args: args, depth: depth})
+			fr.vals[c] = r
+			return true
+		}
+	}
+	// a call of a function value whose target is known on this path (method value, func literal)
+	if cc := c.Common(); !cc.IsInvoke() && cal.Static == nil && cal.Built == "" {
+		if ft := x.term(st, fr, cc.Value); ft.op == "closure" && ft.fn != nil {
+			cal = kit.CalleeOf(c)
+			cal.Static, cal.Name, cal.Pkg, cal.Recv = ft.fn, ft.fn.Name(), kit.FuncPkgPath(ft.fn), ""
+			if ft.fn.Signature.Recv() != nil {
+				cal.Recv = c23RecvName(ft.fn)
+			}
+			args = append(append([]*c23T{}, ft.args...), args...)
+		}
 	}
 	if rk := c23ReadKind(c); rk > 0 && len(args) >= 2 {
 		no := st.nreads
@@ -1015,4 +1182,106 @@ func (st *c23State) linT(t *c23T) (int64, map[string]int64) {
 	}
 	add(t, 1)
 	return c, terms
+}
+
+// c23BoundTarget: f is a synthetic bound-method wrapper (h.method used as a value); returns the
+// method it calls.
+func c23BoundTarget(f *ssa.Function) (*ssa.Function, bool) {
+	if f.Synthetic == "" || len(f.FreeVars) != 1 {
+		return nil, false
+	}
+	for _, b := range f.Blocks {
+		for _, in := range b.Instrs {
+			if c, ok := in.(*ssa.Call); ok {
+				if callee := c.Call.StaticCallee(); callee != nil {
+					return callee, true
+				}
+			}
+		}
+	}
+	return nil, false
+}
+
+func c23RecvName(f *ssa.Function) string {
+	t := f.Signature.Recv().Type()
+	if p, ok := t.(*types.Pointer); ok {
+		t = p.Elem()
+	}
+	if n, ok := t.(*types.Named); ok {
+		return n.Obj().Name()
+	}
+	return t.String()
+}
+
+// segsOf: the bytes of a slice term as segments: the individual bytes of a small literal /
+// variadic pack whose elements are all known, otherwise one "bytes" segment.
+func (st *c23State) segsOf(t *c23T) []c23Seg {
+	if o, lo, hi, ok := st.resolveSlice(t); ok && !o.hasSegs && o.readNo < 0 {
+		if z, isInt := lo.intVal(); isInt && z == 0 {
+			n, known := int64(0), false
+			if hi != nil {
+				n, known = hi.intVal()
+			} else if o.lenT != nil {
+				n, known = o.lenT.intVal()
+			}
+			if known && n > 0 && n <= 32 {
+				var out []c23Seg
+				for i := int64(0); i < n; i++ {
+					e, ok := o.elems[i]
+					if !ok {
+						if !o.zero {
+							out = nil
+							break
+						}
+						e = c23Int(0)
+					}
+					out = append(out, c23Seg{kind: "byte", t: e})
+				}
+				if out != nil && len(o.elems) > 0 {
+					return out
+				}
+			}
+		}
+	}
+	return []c23Seg{{kind: "bytes", t: t}}
+}
+
+// appendSegs models append(base, …) when the content of base is known as segments (it is empty,
+// nil, or itself the result of such appends): the result is a new object that may share base's
+// memory. Returns nil when base's content is not tracked.
+func (st *c23State) appendSegs(base *c23T, add []c23Seg, addLen *c23T) *c23T {
+	var prev []c23Seg
+	root := -1
+	var pooled *c23T
+	switch {
+	case base.isNil():
+	default:
+		o, lo, hi, ok := st.resolveSlice(base)
+		if !ok {
+			return nil
+		}
+		root, pooled = o.root, o.pooled
+		if o.hasSegs {
+			prev = o.segs
+		} else {
+			// only an empty prefix of a fresh buffer is a known (empty) content
+			l := st.lenTerm(base)
+			if n, isInt := l.intVal(); !isInt || n != 0 {
+				return nil
+			}
+			_, _ = lo, hi
+		}
+	}
+	baseLen := c23Int(0)
+	if !base.isNil() {
+		baseLen = st.lenTerm(base)
+	}
+	ot := st.newObj("bytes", c23BinFold(token.ADD, baseLen, addLen), nil)
+	o2 := st.objs[int(ot.n)]
+	o2.zero, o2.hasSegs, o2.pooled = false, true, pooled
+	o2.segs = append(append([]c23Seg{}, prev...), add...)
+	if root >= 0 {
+		o2.root = root
+	}
+	return &c23T{op: "sl", args: []*c23T{ot, c23Int(0), nil}}
 }
